@@ -110,10 +110,23 @@ func text(n jl.Node, sb *strings.Builder, r *rand.Rand) {
 			fmt.Fprintf(sb, "%v", v)
 		} else if v, ok := n["x"].(string); ok && strings.HasPrefix(v, "flt:") {
 			sb.WriteString(v[4:]) // a float leaf: its text is the shortest form, which is what the projection reports
+		} else if _, ok := n["fq"]; ok {
+			sb.WriteString(strconv.FormatFloat(fqFloat(n["fq"]), 'g', -1, 64)) // a small dyadic float leaf n / 2^k (the shared projection's exact form)
 		} else {
 			sb.WriteString("null")
 		}
 	}
+}
+
+func fqFloat(q any) float64 {
+	var num, k int64
+	switch tq := q.(type) {
+	case []int64:
+		num, k = tq[0], tq[1]
+	case []any:
+		num, k = jl.ToInt(tq[0]), jl.ToInt(tq[1])
+	}
+	return float64(num) / float64(int64(1)<<uint(k))
 }
 
 type g struct {
@@ -279,7 +292,14 @@ func matrix(out *bufio.Writer, full bool) {
 	}
 	// decimal and exponent leaves (opaque to the specification: compared as atoms), so that a number split across reads is
 	// delivered whole; only under targets without filters, which would have to order them
-	F := func(t string) jl.Node { return jl.Node{"x": "flt:" + t} }
+	// the leaf is whatever the shared projection (jplib.Project) makes of the float64, so that document and callback values meet in one form
+	F := func(t string) jl.Node {
+		f, err := strconv.ParseFloat(t, 64)
+		if err != nil {
+			panic(err)
+		}
+		return jl.Project(f)
+	}
 	fdocs := []jl.Node{
 		O("a", F("12.75"), "b", A(F("0.5"), F("-0.125"), I(3), F("1.5e+20")), "c", O("a", F("-2.5e-07"), "b", F("1234.5678"))),
 		A(F("12.75"), A(F("0.25"), F("3.5")), O("a", F("1e+21")), F("-0.001953125")),
